@@ -83,13 +83,13 @@ ENGINES.append({"name": "fs", "path": "overlay/verifsim/fs + overlay/verifsim/si
 LOCK_NOTE = ("Trusted: SQLite itself (statement atomicity, file locking between connections), the in-process DynamoDB and S3 fakes (written from the API "
              "documentation: GetItem/PutItem with ConditionExpression and ConsistentRead; GET/PUT with MD5 ETags, If-Match, Tigris' empty If-Match), porcupine. "
              "Real: the three backends, crawshaw.io/sqlite on a real file, the AWS SDK v2 including its retryer over in-memory connections. "
-             "Not decided: durability of the SQLite file across power loss (synchronous=FULL), separate OS processes (connections in one process instead).")
+             "A sixteenth of the SQLite runs (a quarter in the thorough tier) use separate OS processes, one per client, driven in lock-step over pipes (cross-process visibility and reopen; no true parallelism). Not decided: durability of the SQLite file across power loss (synchronous=FULL).")
 PROPS["C05"] = {
     "engine": "lock", "quick_budget": 45, "thorough_budget": 600, "level_note": LOCK_NOTE,
     "level_text": "2-4 scripted clients issue Create/Fetch/Replace with unique values (also empty and NUL-containing) against the real SQLite, DynamoDB and ETag backends; the scheduler orders every request at the fake service (or every SQL statement start, through crawshaw's tracer) and injects 500/503, connections cut before or after the effect (lost response, SDK retry of a conditional write) and stale reads for non-consistent GetItem; invoke/return are stamped with the event sequence number and the history per log id is checked with porcupine against a nondeterministic CAS-register model (fault-free operations have strict outcomes; a faulted error may or may not have taken effect), plus direct assertions (not-found error identity, byte-exact round trip, a fresh connection sees the last committed value).",
-    "expect_probes": ["porcupine.ok", "concurrent.ops", "fault.cut-after.ddb.PutItem", "fault.cut-after.s3.PUT", "fault.stale.ddb.GetItem", "reopen"],
+    "expect_probes": ["porcupine.ok", "concurrent.ops", "fault.cut-after.ddb.PutItem", "fault.cut-after.s3.PUT", "fault.stale.ddb.GetItem", "reopen", "reopen.process"],
     "real": ["internal/ctlog/sqlite.go, dynamodb.go, etag.go", "crawshaw.io/sqlite on a real database file (several connections)", "aws-sdk-go-v2 (dynamodb, s3, config, retry) over net.Pipe connections inside a synctest bubble"],
-    "stubbed": ["DynamoDB and S3 services: protocol-level in-process fakes", "network: net.Pipe; faults decided by the scheduler", "separate processes: connections/goroutines in one process"],
+    "stubbed": ["DynamoDB and S3 services: protocol-level in-process fakes", "network: net.Pipe; faults decided by the scheduler", "separate processes: mostly connections/goroutines in one process; child processes in lock-step in the sqlite+processes profile"],
     "assumptions": ["the fakes implement the documented conditional-write semantics", "SQLite's own locking and durability are trusted", "sampling: a clean batch is evidence, not proof"],
 }
 ENGINES.append({"name": "lock", "path": "overlay/verifsim/lock", "serves_properties": ["C05"],
